@@ -32,3 +32,14 @@ Definition plaq_walk_ok (L : lattice) (p : plaquette) : bool :=
 (* all hypotheses of the plaquette-table theorems, as one boolean *)
 Definition plaq_list_ok (L : lattice) (ps : list plaquette) : bool :=
   darts_disjoint ps && forallb (fun p => plaq_walk_ok L p && nodupb (p_edges p)) ps.
+
+(* ---------- genericity at a vertex (hypothesis of the cyclic-order statement about clockwise_about) ----------
+   no zero outward vector and no two edges leaving in the same direction (the property's "generic vertex
+   positions"), and no self-loop at v *)
+Definition generic_keysb (key : nat -> vec) (l : list nat) : bool :=
+  forallb (fun a => negb (veqb (key a) vzero)) l &&
+  forallb (fun a => forallb (fun b => (a =? b)%nat || ang_lt (key a) (key b) || ang_lt (key b) (key a)) l) l.
+Definition generic_at (L : lattice) (v : nat) : bool :=
+  forallb (fun e => negb (fst (edge_at L e) =? snd (edge_at L e))%nat) (incident L v)
+  && generic_keysb (outvec L v) (incident L v).
+Definition generic_count (L : lattice) : nat := length (filter (generic_at L) (seq 0 (nV L))).
